@@ -341,6 +341,19 @@ def rule_peg_combinators(ctx):
         if fn is None:
             raise A.AnchorLost(f"impl/src/fmt/parsing.rs::{name}", "repetition helper missing")
         idx = [A.render(x["index"]) for x, _ in A.find(fn.block, "Expr::Index")]
+        # the slice may live in a one-expression helper called with (whole input, rest): read it with the arguments put in
+        for c_, _ in A.find(fn.block, "Expr::Call"):
+            h = ex.fns.get(A.path_str(c_["func"]) or "")
+            if h is None or h.block is None or len(h.block["stmts"]) != 1:
+                continue
+            prm = [x for p_ in h.node["sig"]["inputs"] if A.kind(p_) == "FnArg::Typed" for x in A.pat_idents(p_["0"]["pat"])]
+            if len(prm) != len(c_["args"]):
+                continue
+            for x, _ in A.find(h.block, "Expr::Index"):
+                t_ = A.render(x["index"])
+                for pn, a_ in zip(prm, c_["args"]):
+                    t_ = re.sub(r"\b%s\b" % re.escape(pn), "\x00" + A.render(A.peel(a_)), t_)
+                idx.append(t_.replace("\x00", ""))
         ctx.instance(f"repeat:{name}")
         if idx != ["..(input.len()-cur.len())"]:
             ctx.report(f"repeat:{name}", ctx.where(f, fn.node), f"`{name}` no longer returns the consumed prefix `..(input.len() - cur.len())` (found {idx})", {})
@@ -887,3 +900,19 @@ def rule_single_placeholder(ctx):
             {"examples": exs[:10]},
         )
     ctx.floor("single-placeholder literals", n, 5000)
+
+
+def rule_numeric_leaf(ctx):
+    """NUM-LEAF: the `integer` leaf of the fmt grammar accepts every run of ASCII digits that `str::parse::<usize>` accepts and yields its value: no range check, filter or comparison is applied to the parsed number (std's own limit - widths / precisions / positions above u16::MAX - is rustc's to report on the literal it is handed verbatim; an *exclusive* or otherwise narrower limit here makes a literal std accepts, e.g. `{:65535}`, unparseable, so the derive sees no placeholders in it)."""
+    ex = G.Extractor(ctx.files)
+    fn = ex.fns.get("integer")
+    if fn is None:
+        raise A.AnchorLost("impl/src/fmt/parsing.rs::integer", "leaf parser missing")
+    f = fn.file
+    ctx.instance("integer:unfiltered")
+    ms = [m_["method"]["sym"] for m_, _ in A.find(fn.block, "Expr::MethodCall")]
+    extra = [m for m in ms if m in ("filter", "take_if", "then", "then_some", "is_some_and", "min", "max", "clamp", "checked_sub", "saturating_sub") or m.startswith("try_")]
+    cmps = [A.render(b) for b, _ in A.find(fn.block, "Expr::Binary") if A.kind(b["op"]) in ("BinOp::Lt", "BinOp::Le", "BinOp::Gt", "BinOp::Ge", "BinOp::Eq", "BinOp::Ne")]
+    conds = [x for x, _ in A.walk(fn.block) if A.kind(x) in ("Expr::If", "Expr::Match")]
+    if extra or cmps or conds or "parse" not in ms:
+        ctx.report("leaf:integer:filtered", ctx.where(f, fn.node), f"`integer` no longer yields every parsed digit run ({', '.join(extra + cmps) or 'a condition'}): a number std accepts in a width / precision / position makes the whole literal unparseable and the derive silently treats it as having no placeholders", {})
